@@ -22,6 +22,7 @@ PfxIgr      == <<"@">>
 PfxCw       == <<"#">>
 PfxTm       == <<"~">>
 SfxName     == <<"a", "{", "}">>
+SfxBraces   == <<"{", "}">>
 SfxLine     == <<"LF", "a">>
 BothOsm == {TRUE, FALSE}
 OnlyOsm == {TRUE}
